@@ -273,6 +273,11 @@ class NestedNodeKernel(Kernel):
         ctx.store[(g.oid, "thrown_msg")] = z3.IntVal(-1)
         ctx.store[(g.oid, "threw")] = z3.BoolVal(False)
         ctx.store[(g.oid, "failed_idx")] = z3.Int("failed_idx0")
+        # output alias: the node's forwarding output is flattened to the *current* resolved target of its source when
+        # it is bound (nested_bindings.h bind_forwarding_output_tree_to_source, ResolveCurrentTarget); the source's
+        # resolved target can change whenever nodes of the child run (an inner pass-through / switch re-points)
+        ctx.store[(g.oid, "source_target")] = z3.Int("source_target0")
+        ctx.store[(g.oid, "alias")] = z3.Int("alias0")
         self.nst0 = ctx.store[(g.oid, "child_nst")]
         ctx.assume(z3.And(self.nst0 >= 0, self.nst0 <= MAX_DT))
         # a child's cache is MAX_DT (nothing pending / not started) or not before its parent's current time (Deleg + clamp)
@@ -298,7 +303,10 @@ class NestedNodeKernel(Kernel):
         self.gs_(I, "binds", self.gg(I.ctx, "binds") + 1)
         return VOID
 
-    f_single_nested_graph_bind_output = f_single_nested_graph_bind_inputs
+    def f_single_nested_graph_bind_output(self, I, args, n):
+        self.gs_(I, "binds", self.gg(I.ctx, "binds") + 1)
+        self.gs_(I, "alias", self.gg(I.ctx, "source_target"))
+        return VOID
 
     def f_schedule_sampled_input_consumers(self, I, args, n):
         self.gs_(I, "sampled", self.gg(I.ctx, "sampled") + 1)
@@ -356,6 +364,7 @@ class NestedNodeKernel(Kernel):
         t = ctx.rv(a[0])
         self.gs_(I, "eval_calls", self.gg(ctx, "eval_calls") + 1)
         self.gs_(I, "eval_t", t)
+        self.gs_(I, "source_target", ctx.fresh("source_target_after_eval"))
         nst = ctx.fresh("child_nst_after_eval")
         ctx.assume(z3.And(nst <= MAX_DT, z3.Or(nst == MAX_DT, nst > t)))
         self.gs_(I, "child_nst", nst)
@@ -437,8 +446,11 @@ class SingleNestedEvaluate(NestedNodeKernel):
         ctx.oblige("ensures.child-evaluated-once-at-the-parent's-time[C09 never earlier than the parent's current time]",
                    z3.Implies(self.view_started, z3.And(self.gg(ctx, "eval_calls") == 1, self.gg(ctx, "eval_t") == self.T)),
                    kind="post-normal")
-        ctx.oblige("ensures.boundaries-rebound-before", z3.Implies(self.view_started, self.gg(ctx, "binds") == 2),
+        ctx.oblige("ensures.boundaries-rebound-before", z3.Implies(self.view_started, self.gg(ctx, "binds") >= 2),
                    kind="post-normal")
+        ctx.oblige("ensures.output-alias=the-source's-current-target-after-the-child's-turn[C09 pass-through outputs at any depth; "
+                   "C13 a value passed through a nested graph reads the currently referenced target]",
+                   z3.Implies(self.view_started, self.gg(ctx, "alias") == self.gg(ctx, "source_target")), kind="post-normal")
 
     def post_exc(self, I, exc):
         ctx = I.ctx
@@ -511,7 +523,13 @@ class TryExceptEvaluate(NestedNodeKernel):
         if not ctx.decide(self.view_started, "callee: view started"):
             return z3.BoolVal(True)
         self.gs_(I, "binds", self.gg(ctx, "binds") + 2)
-        return self.c_evaluate(I, None, [args[1]], n)
+        self.gs_(I, "alias", self.gg(ctx, "source_target"))
+        try:
+            r = self.c_evaluate(I, None, [args[1]], n)
+        finally:
+            pass
+        self.gs_(I, "alias", self.gg(ctx, "source_target"))    # re-resolved after the child's turn (normal completion)
+        return r
 
     def f_write_try_except_error(self, I, args, n):
         ctx = I.ctx
@@ -537,6 +555,9 @@ class TryExceptEvaluate(NestedNodeKernel):
                        self.gg(ctx, "err_failed") == self.gg(ctx, "failed_idx"), ret)), kind="post-normal")
         ctx.oblige("ensures.no-failure=>no-error-write[C15 one error tick only where it happens]",
                    z3.Implies(z3.Not(threw), self.gg(ctx, "err_writes") == 0), kind="post-normal")
+        ctx.oblige("ensures.output-alias=the-source's-current-target-after-the-child's-turn[C09 pass-through outputs at any depth; "
+                   "C13 a value passed through a nested graph reads the currently referenced target]",
+                   z3.Implies(self.view_started, self.gg(ctx, "alias") == self.gg(ctx, "source_target")), kind="post-normal")
         nst = self.gg(ctx, "child_nst")
         prop = z3.And(self.view_started, z3.Bool("opt_propagate_child_schedule"), self.child_has_value, nst != MAX_DT)
         ctx.oblige("ensures.schedule-pulled-up-on-both-paths[C09/C15 the run continues]",
